@@ -165,7 +165,7 @@ Section E2E_frame.
   Definition block_hyps (cfg : config) (fi channels bps : N) (block : list Z) (n : nat) : Prop :=
     forall var sig, In (var, sig) (variants channels block) -> sub_hyps qlpc cfg fi bps n var sig.
 
-  Theorem frame_end_to_end cfg rate channels bps fi number block f si bytes rest n :
+  Theorem frame_end_to_end_full cfg rate channels bps fi number block f si n :
     encode_frame ent qlpc cfg rate channels bps fi number block = Ok f ->
     cfg_max_parameter cfg <= 14 -> In bps [8; 12; 16; 20; 24] -> rate < 2 ^ 32 -> 1 <= channels <= 8 -> number < 2 ^ 36 ->
     (1 <= n)%nat -> N.of_nat n <= c_MAX_BLOCK_SIZE ->
@@ -173,11 +173,11 @@ Section E2E_frame.
     Forall (bounded (2 ^ 24)) (chans channels block) ->
     forallb (fun c => forallb (in_range bps) c) (chans channels block) = true ->
     i_rate si = rate -> i_bps si = bps ->
-    Forall (fun x => x < 256) rest ->
-    frame_bytes f = Ok bytes ->
-    exists ctag, read_frame si (bytes ++ rest) = Some (mkFH (N.of_nat n) ctag number (rate mod 2 ^ 32) bps, chans channels block, rest).
+    exists ctag, chassign_tag (h_ch (f_header f)) = Ok ctag /\ f_precomputed f = None /\ frame_ops_wfb f = true /\
+      forall bytes rest, Forall (fun x => x < 256) rest -> frame_bytes f = Ok bytes ->
+      read_frame si (bytes ++ rest) = Some (mkFH (N.of_nat n) ctag number (rate mod 2 ^ 32) bps, chans channels block, rest).
   Proof.
-    intros E Hmp Hbps Hrate Hch Hnum Hn1 Hn Hblk Hbound Hrange Hsr Hsb Hrest Hfb.
+    intros E Hmp Hbps Hrate Hch Hnum Hn1 Hn Hblk Hbound Hrange Hsr Hsb.
     subst rate bps. set (rate := i_rate si) in *. set (bps := i_bps si) in *.
     assert (Hsr : i_rate si = rate) by reflexivity. assert (Hsb : i_bps si = bps) by reflexivity.
     clearbody rate bps.
@@ -190,7 +190,7 @@ Section E2E_frame.
     assert (Hfit : fit_hyp qlpc cfg fi channels block).
     { intros Hu var sig Hin. destruct (Hblk var sig Hin) as (_ & _ & Hq). destruct (Hq Hu) as (_ & B & C). split; [exact C | lia]. }
     destruct (encode_frame_lossless ent qlpc cfg rate channels bps fi number block f E Hch Hbound Hlen2 Hfit) as (ctag & Hctag & Hundo).
-    exists ctag.
+    exists ctag. split; [exact Hctag|].
     (* the shape of the frame *)
     unfold encode_frame in E. fold (chans channels block) in E.
     set (cs := chans channels block) in *. set (idx := map N.of_nat (seq 0 (N.to_nat channels))) in *.
@@ -207,9 +207,10 @@ Section E2E_frame.
               chassign_tag cha = Ok ctag -> forall subs,
               Forall2 (sub_ready (N.of_nat n)) subs (flac_bpss ctag bps) ->
               undo_stereo ctag (map decode_sub subs) = Some cs ->
-              frame_bytes (mkFrame h subs None) = Ok bytes ->
+              frame_ops_wfb (mkFrame h subs None) = true /\
+              forall bytes rest, Forall (fun x => x < 256) rest -> frame_bytes (mkFrame h subs None) = Ok bytes ->
               read_frame si (bytes ++ rest) = Some (mkFH (N.of_nat n) ctag number (rate mod 2 ^ 32) bps, cs, rest)).
-    { intros cha h Eh Hct subs Hsubs Hun Hfb'.
+    { intros cha h Eh Hct subs Hsubs Hun.
       assert (Hn0 : match cs with c :: _ => N.of_nat (length c) | [] => 0 end = N.of_nat n).
       { destruct cs as [|c0 cr] eqn:Ecs.
         - exfalso. assert (length idx = 0%nat) by (rewrite Hlenic; reflexivity). unfold idx in H. rewrite map_length, seq_length in H. lia.
@@ -230,11 +231,15 @@ Section E2E_frame.
       destruct (utf8_defined number Hnum) as [num Enum].
       assert (Htyp : Forall (fun s => sub_typed s /\ verify_subframe s = true) subs).
       { clear -Hsubs. induction Hsubs as [|s b ss bs (A & B & C & D & _) _ IH]; constructor; [split; assumption | exact IH]. }
-      match type of Hfb' with frame_bytes (mkFrame ?hh _ _) = _ =>
-        pose proof (flac_reads_frame si (mkFrame hh subs None) bytes rest ctag num (rate mod 2 ^ 32) bps cs) as HF;
+      match goal with |- frame_ops_wfb (mkFrame ?hh _ _) = _ /\ _ =>
         pose proof (frame_ops_wfb_intro hh subs ctag num) as HW
       end.
-      cbv zeta in HF. cbn [f_header f_subframes f_precomputed h_variable h_ch h_number h_bs h_sr h_ss_tag h_block] in HF, HW.
+      cbn [f_header f_subframes f_precomputed h_variable h_ch h_number h_bs h_sr h_ss_tag h_block] in HW.
+      split; [apply HW; assumption|]. intros bytes rest Hrest Hfb'.
+      match type of Hfb' with frame_bytes (mkFrame ?hh _ _) = _ =>
+        pose proof (flac_reads_frame si (mkFrame hh subs None) bytes rest ctag num (rate mod 2 ^ 32) bps cs) as HF
+      end.
+      cbv zeta in HF. cbn [f_header f_subframes f_precomputed h_variable h_ch h_number h_bs h_sr h_ss_tag h_block] in HF.
       apply HF; try assumption; try reflexivity.
       - apply HW; assumption.
       - apply Hbpc. }
@@ -264,7 +269,7 @@ Section E2E_frame.
       assert (Hss : sub_ready (N.of_nat n) ss (bps + 1)).
       { assert (Hvb : var_bps bps VAR_SIDE = bps + 1) by reflexivity. rewrite <- Hvb in Ess.
         destruct (one_sub ent qlpc cfg fi bps n VAR_SIDE _ ss Ess (Hblk _ _ Hside_in) Hmp ltac:(rewrite Hvb; exact Hbok1) Hn) as [A _]. rewrite Hvb in A. exact A. }
-      refine (Hhdr (fst best) h Eh Hctag _ _ Hundo Hfb).
+      split; [reflexivity|]. refine (Hhdr (fst best) h Eh Hctag _ _ Hundo).
       destruct (fst best) eqn:Eb; cbn [chassign_tag] in Hctag.
       + assert (n0 = 2).
         { unfold best in Eb. repeat match type of Eb with
@@ -282,11 +287,28 @@ Section E2E_frame.
       apply Ok_inj in Hctag. subst ctag.
       assert (Hct2 : chassign_tag (Indep channels) = Ok (channels - 1)).
       { cbn [chassign_tag]. destruct (N.ltb_spec 8 channels); [lia|]. destruct (N.eqb_spec channels 0); [lia | reflexivity]. }
-      refine (Hhdr (Indep channels) h Eh Hct2 _ _ Hundo Hfb).
+      split; [reflexivity|]. refine (Hhdr (Indep channels) h Eh Hct2 _ _ Hundo).
       rewrite flac_bpss_indep by exact Hch.
       assert (Hli : length indep = N.to_nat channels).
       { apply Forall2_len in Hindep. rewrite Hindep, combine_length, Hlenic, Nat.min_id. unfold cs, chans. rewrite !map_length, seq_length. reflexivity. }
       rewrite <- Hli. apply Forall2_repeat_r. clear -Hindep. induction Hindep as [|s ic ss ics [A _] _ IH]; constructor; assumption.
+  Qed.
+
+  Corollary frame_end_to_end cfg rate channels bps fi number block f si bytes rest n :
+    encode_frame ent qlpc cfg rate channels bps fi number block = Ok f ->
+    cfg_max_parameter cfg <= 14 -> In bps [8; 12; 16; 20; 24] -> rate < 2 ^ 32 -> 1 <= channels <= 8 -> number < 2 ^ 36 ->
+    (1 <= n)%nat -> N.of_nat n <= c_MAX_BLOCK_SIZE ->
+    block_hyps cfg fi channels bps block n ->
+    Forall (bounded (2 ^ 24)) (chans channels block) ->
+    forallb (fun c => forallb (in_range bps) c) (chans channels block) = true ->
+    i_rate si = rate -> i_bps si = bps ->
+    Forall (fun x => x < 256) rest ->
+    frame_bytes f = Ok bytes ->
+    exists ctag, read_frame si (bytes ++ rest) = Some (mkFH (N.of_nat n) ctag number (rate mod 2 ^ 32) bps, chans channels block, rest).
+  Proof.
+    intros E Hmp Hbps Hrate Hch Hnum Hn1 Hn Hblk Hbound Hrange Hsr Hsb Hrest Hfb.
+    destruct (frame_end_to_end_full cfg rate channels bps fi number block f si n E Hmp Hbps Hrate Hch Hnum Hn1 Hn Hblk Hbound Hrange Hsr Hsb)
+      as (ctag & _ & _ & _ & H). exists ctag. exact (H bytes rest Hrest Hfb).
   Qed.
 End E2E_frame.
 
